@@ -111,6 +111,9 @@ pub fn run(tier: &str) -> i32 {
             PairSet::WithTriangle
         },
     );
+    // integer coordinates up to 2^24 (exact in f32) with inexact differences, in f32 and, as a control, in f64
+    sweep_table(&st, "C10", &pi_spec(), Ft::F32, &want, if thorough { PairSet::All } else { PairSet::WithTriangle });
+    sweep_table(&st, "C10", &pi_spec(), Ft::F64, &want, PairSet::TrianglesOnly);
     if thorough {
         sweep_table(
             &st,
